@@ -618,3 +618,21 @@ def r21_or_else(text):
 
 
 REWRITES['R21'] = r21_or_else
+
+
+def r23_str_contains_literal(text):
+    """R23:  `X.contains("lit")`  ->  `str_contains_lit(&(X), "lit")`  (substring test on a
+    str / String with a literal pattern; the stand-in has NO contract: any answer is possible)"""
+    n = 0
+    while True:
+        m = re.search(r'\.\s*contains\s*\(\s*("(?:[^"\\]|\\.)*")\s*\)', text)
+        if not m:
+            break
+        rs = _receiver_start(text, m.start())
+        recv = text[rs:m.start()].strip()
+        text = text[:rs] + 'str_contains_lit(&(%s), %s)' % (recv, m.group(1)) + text[m.end():]
+        n += 1
+    return text, n
+
+
+REWRITES['R23'] = r23_str_contains_literal
